@@ -48,12 +48,59 @@ var specs = []spec{
 	{"weed/storage/types", "ToOffset", ""},
 	{"weed/storage/types", "Offset.ToActualOffset", ""},
 	{"weed/storage/types", "Offset.IsZero", ""},
+	{"weed/storage/types", "BytesToOffset", ""},
 	{"weed/storage/erasure_coding", "ShardBits.AddShardId", ""},
 	{"weed/storage/erasure_coding", "ShardBits.RemoveShardId", ""},
 	{"weed/storage/erasure_coding", "ShardBits.HasShardId", ""},
 	{"weed/storage/erasure_coding", "ShardBits.Minus", ""},
 	{"weed/storage/erasure_coding", "ShardBits.Plus", ""},
 	{"weed/storage/erasure_coding", "ShardBits.ShardIdCount", ""},
+	{"weed/storage/erasure_coding", "ShardBits.ShardIds", ""},
+	{"weed/util", "BytesToUint64", ""},
+	{"weed/util", "BytesToUint32", ""},
+	{"weed/util", "BytesToUint16", ""},
+	{"weed/storage/types", "BytesToSize", ""},
+	{"weed/storage/types", "BytesToNeedleId", ""},
+	{"weed/storage/types", "BytesToCookie", ""},
+}
+
+// specs5: the offset-width dependent functions, translated a second time from the files selected by
+// the build tag 5BytesOffset (binary built with -tags "verif 5BytesOffset"; output gen/Funcs5.v)
+var specs5 = []spec{
+	{"weed/storage/types", "ToOffset", ""},
+	{"weed/storage/types", "Offset.ToActualOffset", ""},
+	{"weed/storage/types", "Offset.IsZero", ""},
+	{"weed/storage/types", "BytesToOffset", ""},
+}
+
+// widthConsts: constants that depend on the offset width, printed into both files
+var widthConsts = []string{"types.OffsetSize", "types.NeedleMapEntrySize", "types.MaxPossibleVolumeSize"}
+
+// lits lists the anonymous literals to extract (lits.go), in emission order.
+var lits = []litSpec{
+	{dir: "weed/storage", fn: "CheckAndFixVolumeDataIntegrity", coq: "CheckAndFix_window", pattern: "i <= _"},
+	{dir: "weed/storage/needle_map", fn: "CompactSection.Set", coq: "CompactSection_Set_lookback", pattern: "lookBackIndex := cs.counter - _"},
+	{dir: "weed/storage/needle_map", coq: "needle_map_batch", pattern: "batch"},
+	{dir: "weed/storage/erasure_coding", fn: "WriteEcFiles", coq: "WriteEcFiles_bufferSize", pattern: "generateEcFiles(baseFileName, _, __, __)"},
+	{dir: "weed/storage/erasure_coding", fn: "RebuildEcFiles", coq: "RebuildEcFiles_bufferSize", pattern: "generateMissingEcFiles(baseFileName, _, __, __)"},
+	{dir: "weed/storage", fn: "Volume.startWorker", coq: "startWorker_maxBytes", pattern: "currentBytesToWrite >= _"},
+	{dir: "weed/storage", fn: "Volume.startWorker", coq: "startWorker_maxRequests", pattern: "len(currentRequests) >= _"},
+	{dir: "weed/storage", fn: "NewVolume", coq: "NewVolume_chanCapacity", pattern: "make(chan *needle.AsyncRequest, _)"},
+	{dir: "weed/storage/super_block", fn: "SuperBlock.Bytes", coq: "SuperBlock_Bytes_extraMax", pattern: "extraSize > _"},
+	{dir: "weed/server", fn: "FilerServer.moveFolderSubEntries", coq: "moveFolderSubEntries_pageSize", pattern: "fs.filer.ListDirectoryEntries(__, __, __, __, _, __, __, __)"},
+	{dir: "weed/util/log_buffer", coq: "log_buffer_BufferSize", pattern: "BufferSize"},
+	{dir: "weed/util/log_buffer", coq: "log_buffer_PreviousBufferCount", pattern: "PreviousBufferCount"},
+	{dir: "weed/util/log_buffer", fn: "NewLogBuffer", coq: "NewLogBuffer_flushChanCapacity", pattern: "make(chan *dataToFlush, _)"},
+	{dir: "weed/topology", fn: "Topology.batchVacuumVolumeCheck", coq: "batchVacuumVolumeCheck_cmp", pattern: "resp.GarbageRatio == garbageThreshold", kind: "op"},
+	{dir: "weed/topology", fn: "Topology.batchVacuumVolumeCheck", coq: "batchVacuumVolumeCheck_timeoutDivisor", pattern: "t.volumeSizeLimit/1024/1024/_ + 1"},
+	{dir: "weed/topology", fn: "Topology.batchVacuumVolumeCompact", coq: "batchVacuumVolumeCompact_timeoutFactor", pattern: "_ * time.Minute * __"},
+	{dir: "weed/filer", fn: "ViewFromVisibleIntervals", coq: "ViewFromVisibleIntervals_toEnd", pattern: "size == _"},
+	{dir: "weed/filer", fn: "ViewFromChunks", coq: "ViewFromChunks_stop", pattern: "stop = _"},
+	{dir: "weed/s3api", fn: "S3ApiServer.genUploadsFolder", coq: "genUploadsFolder_format", pattern: "fmt.Sprintf(_, __, __)", kind: "string"},
+	{dir: "weed/command", fn: "S3Options.startS3Server", coq: "startS3Server_bucketsPath", pattern: "filerBucketsPath := _", kind: "string"},
+	{dir: "weed/storage/needle", fn: "ParseNeedleIdCookie", coq: "ParseNeedleIdCookie_minLen", pattern: "len(key_hash_string) <= _"},
+	{dir: "weed/storage/needle", fn: "ParseNeedleIdCookie", coq: "ParseNeedleIdCookie_maxLen", pattern: "len(key_hash_string) > _"},
+	{dir: "weed/storage/needle", fn: "ParseNeedleIdCookie", coq: "ParseNeedleIdCookie_cookieLen", pattern: "len(key_hash_string) - _"},
 }
 
 const header = `(* GENERATED by harness/cmd/funcgen from the Go source text of the tree on every run. Do not edit.
@@ -63,8 +110,11 @@ const header = `(* GENERATED by harness/cmd/funcgen from the Go source text of t
    (None = run-time panic or fuel exhausted).  Value-preserving conversions (every value of the
    source type is a value of the target type) are the identity.  Pointer parameters p are a pair
    (p_nil : bool) (p : Record); dereferencing nil is not modelled.  Strings exist only as ""
-   = (0,0) and fmt.Sprintf("%%d<c>", e) = (e, code of c). *)
-From Coq Require Import ZArith List Bool.
+   = (0,0) and fmt.Sprintf("%%d<c>", e) = (e, code of c).  Slices are lists: b[i], b[lo:hi] out of
+   range are panics (None), len is the list length, append adds one element.
+   Last sections: constants that depend on the offset width, and the anonymous literals selected
+   by structural patterns (lits.go; a pattern must match exactly once, else funcgen fails). *)
+From Coq Require Import ZArith List Bool String.
 From SW Require Import base.GoInt.
 Local Open Scope Z_scope.
 Local Open Scope bool_scope.
@@ -117,13 +167,46 @@ func main() {
 			want[n] = true
 		}
 	}
-	for _, s := range specs {
+	five := false
+	for _, tg := range tagList {
+		if tg == "5BytesOffset" {
+			five = true
+		}
+	}
+	useSpecs := specs
+	if five {
+		useSpecs = specs5
+	}
+	for _, s := range useSpecs {
 		if len(want) > 0 && !want[s.name] {
 			continue
 		}
 		if err := one(t, s); err != nil {
 			fmt.Fprintf(os.Stderr, "funcgen: %s.%s: %v\n", s.dir, s.name, err)
 			os.Exit(1)
+		}
+	}
+	litDefs := []string{}
+	if len(want) == 0 {
+		litDefs = append(litDefs, "\n(* ---------- constants that depend on the offset width (evaluated by importing the packages) ---------- *)\n")
+		for _, n := range widthConsts {
+			cv, ok := t.consts[n]
+			if !ok {
+				fmt.Fprintf(os.Stderr, "funcgen: constant %s is not in the constant table\n", n)
+				os.Exit(1)
+			}
+			litDefs = append(litDefs, fmt.Sprintf("Definition Const_%s : Z := %s.", n[strings.Index(n, ".")+1:], zlit(cv.val)))
+		}
+	}
+	if len(want) == 0 && !five {
+		litDefs = append(litDefs, "\n(* ---------- anonymous literals and unexported constants (harness/cmd/funcgen/lits.go) ---------- *)\n")
+		for _, ls := range lits {
+			d, err := t.lit(ls)
+			if err != nil {
+				fmt.Fprintf(os.Stderr, "funcgen: literal %s (%s %s): %v\n", ls.coq, ls.dir, ls.fn, err)
+				os.Exit(1)
+			}
+			litDefs = append(litDefs, d)
 		}
 	}
 	fmt.Printf(header)
@@ -135,6 +218,9 @@ func main() {
 		fmt.Println(d)
 	}
 	fmt.Printf("(* translated: %s *)\n", strings.Join(t.names, " "))
+	for _, d := range litDefs {
+		fmt.Println(d)
+	}
 }
 
 func one(t *tr, s spec) (err error) {
